@@ -151,7 +151,8 @@ def biased_family(draw):
     top = [TYPE_OF[a] for a in args]
     shape = draw(st.sampled_from(['widen', 'widen', 'widen', 'incomparable',
                                   'identical', 'chain', 'mixed-nokw',
-                                  'mixed-lazy']))
+                                  'mixed-lazy', 'zero-arg-tie',
+                                  'partial-order']))
     layers = draw(st.integers(1, 2))
     defs = []
 
@@ -162,7 +163,31 @@ def biased_family(draw):
         d.update(extra)
         defs.append(d)
         return d
-    if shape == 'incomparable' and k >= 2:
+    if shape == 'zero-arg-tie':
+        # several overloads that all accept f(): parameterless, defaulted,
+        # hidden-only, *args-only
+        args = []
+        top = []
+        k = 0
+        for _ in range(draw(st.integers(2, 4))):
+            kind = draw(st.sampled_from(['none', 'default', 'hidden',
+                                         'varargs']))
+            d = {'tag': 't%d' % len(defs), 'layer': 0, 'kind': 'function',
+                 'params': []}
+            if kind == 'default':
+                d['params'] = [{'name': 'p0', 'type': 'obj',
+                                'nullable': True, 'default': 1}]
+            elif kind == 'hidden':
+                d['params'] = [{'name': 'h', 'type': 'obj', 'hidden': True}]
+            elif kind == 'varargs':
+                d['varargs'] = 'obj'
+            defs.append(d)
+    elif shape == 'partial-order' and k >= 2:
+        # >=3 matches containing a comparable pair but no most specific one
+        for _ in range(draw(st.integers(3, 4))):
+            t = [draw(st.sampled_from(resfam.SUPERS[x][:3])) for x in top]
+            mk(t)
+    elif shape == 'incomparable' and k >= 2:
         # one most specific + >=2 incomparable generalisations
         mk(top)
         used = set()
@@ -209,6 +234,21 @@ def biased_family(draw):
     order = draw(st.permutations(range(len(defs))))
     defs = [defs[i] for i in order]
     call = {'args': [{'o': a} for a in args]}
+    if shape not in ('mixed-nokw', 'zero-arg-tie') and k >= 1 and \
+            draw(st.integers(0, 2)) == 0:
+        # pass a suffix of the arguments by keyword
+        cut = draw(st.integers(0, k - 1))
+        call['kwargs'] = [['p%d' % i, {'o': args[i]}]
+                          for i in range(cut, k)]
+        call['args'] = call['args'][:cut]
+        if draw(st.booleans()):
+            # give the keyword-passed parameters defaults in some overloads
+            for d in defs:
+                if draw(st.booleans()):
+                    for p in d['params'][cut:]:
+                        if not p.get('lazy'):
+                            p['default'] = None
+                            p['nullable'] = True
     if shape == 'mixed-nokw' and draw(st.booleans()):
         # a mapping-style argument whose key is not a keyword
         call['args'] = call['args'][:-1] + [{'raw': '1 => 2'}]
